@@ -13,6 +13,7 @@ import (
 	"path/filepath"
 	"strings"
 	"sync"
+	"sync/atomic"
 	"time"
 )
 
@@ -170,4 +171,22 @@ func (s *Solver) remember(key string, r *SolveResult) *SolveResult {
 	s.cache[key] = r
 	s.mu.Unlock()
 	return r
+}
+
+var rawSeq int64
+
+// RunRaw runs one solver on a complete script and returns its output.
+func (s *Solver) RunRaw(name, query string, timeoutS int) string {
+	n := atomic.AddInt64(&rawSeq, 1)
+	file := filepath.Join(s.dir, "batch"+itoa(int(n))+".smt2")
+	_ = os.WriteFile(file, []byte(query), 0o644)
+	defer os.Remove(file)
+	ctx, cancel := context.WithTimeout(context.Background(), time.Duration(timeoutS)*time.Second)
+	defer cancel()
+	cmd := exec.CommandContext(ctx, name, file)
+	var out bytes.Buffer
+	cmd.Stdout = &out
+	cmd.Stderr = &out
+	_ = cmd.Run()
+	return out.String()
 }
